@@ -6,6 +6,15 @@ V = "/verif"
 props = [json.loads(l) for l in open(V + "/properties.jsonl")]
 
 CLAIMS = {
+    "C10": dict(cat="other", tech="interprocedural forward taint analysis over resolved release-mode MIR with transfer summaries and a points-to relation (TAINT engine)",
+                text="From a frozen table of constant-time API roots (>=100 functions incl. operator impls) with all parameters secret, no reached function (>=250 per backend) contains a SwitchInt/Assert on a secret value, secret-indexed memory, secret Div/Rem, "
+                     "an un-vetted extern call or a value-dependent library routine (comparisons, predicate adapters such as skip_while) on secret data, or a call edge into the variable-time set; one reviewed exception (invariantly-true assert in FieldElement::batch_invert). "
+                     "Decided on the MIR the compiler starts from, per backend; what LLVM does afterwards is trusted (subtle barriers, x86 timing)",
+                note="source-level (MIR) claim; the vetted-extern table is part of the trusted base", ref="3.4, 4 C10"),
+    "C14": dict(cat="other", tech="field-coverage of Drop/Zeroize bodies from ADT facts + heap-buffer typestate driven by TAINT from scalar parameters (ZEROIZE engine)",
+                text="Each of the 6 secret-holding types has a Drop that zeroizes every non-public field on all normal paths; every hand-written Zeroize impl writes every field and points reset to identity constants; "
+                     "every scalar-derived heap local found by taint in constant-time multiscalar multiplication and Scalar::batch_invert (3 today) is a single-allocation Vec, Zeroizing from construction or explicitly zeroized on every normal path before release, with no re-allocating operation",
+                note="source-level; zeroize's volatile semantics, exact-size collect not reallocating, and unwind paths (noted, not claimed) are outside", ref="3.7, 4 C14"),
     "C03": dict(cat="other", tech="flag dominance, call-identity data flow, field-wise completeness (FIELDSET) over resolved MIR; visibility facts",
                 text="Structural clauses: decoder = sqrt_ratio_i(y^2-1, d*y^2+1) with its flag deciding Some, sign from input bit 255, T=X*Y after negation; encoder = as_bytes(Y/Z) with is_negative(X/Z) in bit 255; "
                      "projective equality shape; every field-wise writer/selector of an EdwardsPoint touches all four coordinates consistently; identity/neg/cofactor/small-order/torsion-free wiring; coordinates and internal modules not public. "
@@ -61,6 +70,7 @@ m = {
     "engines": [
         {"name": "mirfacts", "path": "mirfacts/", "serves_properties": sorted(CLAIMS), "kind_free_text": "rustc_private driver: exports resolved MIR, ADTs, impls and const-evaluated constants per crate and configuration"},
         {"name": "CONSTS", "path": "lib/eng_consts.py", "serves_properties": ["C12", "C17"], "kind_free_text": "constants vs big-integer oracle"},
+        {"name": "TAINT/ZEROIZE", "path": "lib/eng_taint.py props/C14.py", "serves_properties": ["C10", "C14"], "kind_free_text": "interprocedural taint with transfer summaries and points-to; drop/zeroize field coverage; heap typestate"},
         {"name": "PATH", "path": "lib/mirlib.py lib/pathlib2.py lib/ex.py", "serves_properties": [p for p in ["C03", "C06", "C07", "C08", "C09", "C13", "C16", "C17"] if p in CLAIMS],
          "kind_free_text": "dominance (edge-removal reachability), value-flow slices, expression trees, ORDER, guard implication"},
     ],
